@@ -67,7 +67,7 @@ class FoersterRelaxationTensor(RelaxationTensor):
             sbi = self.SystemBathInteraction             
             
             if self._has_cutoff_time:
-                cft = self.cut_off_time
+                cft = self.cutoff_time
             else:
                 cft = None
                 
